@@ -973,3 +973,226 @@ Example judge_real_accepts_model :
               [(0, 1); (4, 1)])
   = (false, true, true, true, true, true).
 Proof. vm_compute. reflexivity. Qed.
+
+(** * The owner-deletion helper of the controllers (harness: operations finalize / ensure of mode cache)
+
+    The real controllers.FreeCacheAndRemoveFinalizer / EnsureCachedFinalizer, given the real Cache (on the
+    scripted informer map) and a client whose finalizer patch is answered adversarially.  Observed in
+    addition to the usual observation: whether a patch reached the API server, and what the helper
+    returned (nil / the error of Cache.Free / the error of the patch). *)
+Inductive fop :=
+| FOp (x : op)
+| FFinalize (o : owner) (out : outcome) (has_fin : bool) (p : patch_outcome)
+| FEnsure (o : owner) (has_fin : bool) (p : patch_outcome).
+
+Record fobs := FObs { f_obs : obs; f_sent : bool; f_ret : helper_ret }.
+
+Definition fin_case := (list handler * list gvk * list (fop * fobs))%type.
+
+Definition ret_eqb (a b : helper_ret) : bool :=
+  match a, b with RetNil, RetNil | RetFreeErr, RetFreeErr | RetPatchErr, RetPatchErr => true | _, _ => false end.
+
+(** the error class of a helper step is not observed; everything else of the observation is compared *)
+Definition obs_eqb_noerr (a b : obs) : bool :=
+  list_eqb event_eqb (b_events a) (b_events b) &&
+  option_eqb oset_eqb (b_res a) (b_res b) &&
+  list_eqb (fun p q => (fst p =? fst q) && oset_eqb (snd p) (snd q)) (b_snap a) (b_snap b).
+
+Fixpoint agree_fin_steps (fixed : bool) (kinds : list gvk) (s : state) (steps : list (fop * fobs)) : bool :=
+  match steps with
+  | [] => true
+  | (FOp x, b) :: r =>
+      match find (fun x' => obs_eqb (obs_of kinds (stepf fixed s x')) (f_obs b)) (cands kinds x) with
+      | Some x' => agree_fin_steps fixed kinds (fst (stepf fixed s x')) r
+      | None => false
+      end
+  | (FFinalize o out has_fin p, b) :: r =>
+      match find (fun ord =>
+               let '(s', fo, sent, ret) := free_and_remove_finalizer (stepf fixed) s o out ord has_fin p in
+               obs_eqb_noerr (obs_of kinds (s', fo)) (f_obs b) && Bool.eqb sent (f_sent b) && ret_eqb ret (f_ret b))
+             (perms kinds) with
+      | Some ord =>
+          let '(s', _, _, _) := free_and_remove_finalizer (stepf fixed) s o out ord has_fin p in
+          agree_fin_steps fixed kinds s' r
+      | None => false
+      end
+  | (FEnsure o has_fin p, b) :: r =>
+      let '(sent, ret) := ensure_finalizer has_fin p in
+      obs_eqb_noerr (obs_of kinds (s, mk_out ErrNone [])) (f_obs b) && Bool.eqb sent (f_sent b) && ret_eqb ret (f_ret b) &&
+      agree_fin_steps fixed kinds s r
+  end.
+
+Definition agree_fin (fixed : bool) (c : fin_case) : bool :=
+  let '(handlers, kinds, steps) := c in agree_fin_steps fixed kinds (init handlers) steps.
+
+(** The property: the monitor of the sequential stage, with a helper step read as "Free of the owner" -
+    one that counts as successful exactly when the helper let go of the owner ([owner_released]: it
+    returned nil, or its patch was applied / answered NotFound); from then on the owner must be in no
+    owner set and informers nobody else needs must be gone.  EnsureCachedFinalizer does not concern the
+    cache. *)
+Fixpoint fin_to_steps (steps : list (fop * fobs)) : list (op * obs) :=
+  match steps with
+  | [] => []
+  | (FOp x, b) :: r => (x, f_obs b) :: fin_to_steps r
+  | (FFinalize o out _ p, b) :: r =>
+      (Free o out [], Obs (if owner_released (f_sent b) (f_ret b) p then ErrNone else ErrDelete)
+                          (b_events (f_obs b)) (b_res (f_obs b)) (b_snap (f_obs b))) :: fin_to_steps r
+  | (FEnsure _ _ _, _) :: r => fin_to_steps r
+  end.
+
+Definition judge_fin (c : fin_case) : bool * bool * bool * bool * bool * bool :=
+  let '(handlers, kinds, steps) := c in
+  let v := monitor_verdict (handlers, kinds, fin_to_steps steps) in
+  (agree_fin false c, agree_fin true c, v_refs v, v_started v, v_stopped v, v_read v).
+
+(** Non-vacuity: a helper that sends the patch first and gives up on NotFound without freeing is
+    rejected (owner 0 still listed, informer still running) ... *)
+Example judge_fin_rejects_unfreed_owner :
+  let pre := steps_of true [0; 1] (init [0; 1]) [Watch 0 0 ok] in
+  judge_fin ([0; 1], [0; 1],
+             map (fun p => (FOp (fst p), FObs (snd p) false RetNil)) pre ++
+             [(FFinalize 0 ok true patch_not_found,
+               FObs (Obs ErrNone [] None [(0, Some [0]); (1, None)]) true RetPatchErr);
+              (FOp (Get 0), FObs (Obs ErrNone [EGet 0 true] None [(0, Some [0]); (1, None)]) false RetNil)])
+  = (false, false, false, true, false, false).
+Proof. vm_compute. reflexivity. Qed.
+
+(** ... and the model's behaviour is accepted. *)
+Example judge_fin_accepts_model :
+  let pre := steps_of true [0; 1] (init [0; 1]) [Watch 0 0 ok] in
+  judge_fin ([0; 1], [0; 1],
+             map (fun p => (FOp (fst p), FObs (snd p) false RetNil)) pre ++
+             [(FFinalize 0 ok true patch_not_found,
+               FObs (Obs ErrNone [EDelete 0 true; EStop 0] None [(0, None); (1, None)]) true RetPatchErr);
+              (FOp (Get 0), FObs (Obs ErrNotStarted [] None [(0, None); (1, None)]) false RetNil)])
+  = (true, true, true, true, true, true).
+Proof. vm_compute. reflexivity. Qed.
+
+(** ** The helper monitor accepts the model of the current cache.go *)
+Inductive fin_in :=
+| IOp (x : op)
+| IFinalize (o : owner) (out : outcome) (order : list gvk) (has_fin : bool) (p : patch_outcome)
+| IEnsure (o : owner) (has_fin : bool) (p : patch_outcome).
+
+Fixpoint fin_steps_of (fixed : bool) (kinds : list gvk) (s : state) (ins : list fin_in) : list (fop * fobs) :=
+  match ins with
+  | [] => []
+  | IOp x :: r =>
+      let q := stepf fixed s x in
+      (FOp x, FObs (obs_of kinds q) false RetNil) :: fin_steps_of fixed kinds (fst q) r
+  | IFinalize o out ord has_fin p :: r =>
+      let '(s', fo, sent, ret) := free_and_remove_finalizer (stepf fixed) s o out ord has_fin p in
+      (FFinalize o out has_fin p, FObs (obs_of kinds (s', fo)) sent ret) :: fin_steps_of fixed kinds s' r
+  | IEnsure o has_fin p :: r =>
+      let '(sent, ret) := ensure_finalizer has_fin p in
+      (FEnsure o has_fin p, FObs (obs_of kinds (s, mk_out ErrNone [])) sent ret) :: fin_steps_of fixed kinds s r
+  end.
+
+Lemma between_weaken lo hi hi' l : between lo hi l = true -> incl hi hi' -> between lo hi' l = true.
+Proof.
+  unfold between. rewrite !andb_true_iff. intros [[H1 H2] H3] Hi. repeat split; try assumption.
+  apply subset_incl. apply subset_incl in H2. eapply incl_tran; eassumption.
+Qed.
+
+(** Reading a Free as failed although it succeeded only weakens what the monitor asks for. *)
+Lemma mon_step_free_weaken g handlers m o out ord b :
+  let r1 := mon_step g handlers m (Free o out ord) b in
+  let r2 := mon_step g handlers m (Free o out ord) (Obs ErrDelete (b_events b) (b_res b) (b_snap b)) in
+  v_all (snd r1) = true ->
+  v_all (snd r2) = true /\
+  m_must (fst r2) = m_must (fst r1) /\ incl (m_may (fst r1)) (m_may (fst r2)) /\
+  m_inf (fst r2) = m_inf (fst r1) /\ m_stuck (fst r2) = m_stuck (fst r1).
+Proof.
+  unfold mon_step. cbn [fst snd b_err b_events b_res b_snap m_must m_may m_inf m_stuck err_eqb].
+  unfold v_all. cbn [v_refs v_started v_stopped v_read]. rewrite !andb_true_iff.
+  intros [[[Hb Hs] Ht] _].
+  assert (Hincl : incl (if err_eqb (b_err b) ErrNone then rem o (m_may m) else m_may m) (m_may m)).
+  { destruct (err_eqb (b_err b) ErrNone); [apply incl_rem|apply incl_refl]. }
+  repeat split; try reflexivity; try assumption.
+  - destruct Hb as [Hb _]. eapply between_weaken; eassumption.
+  - destruct (m_may m) as [|a l]; [|reflexivity].
+    destruct (err_eqb (b_err b) ErrNone); cbn in Ht; cbn; exact Ht.
+Qed.
+
+Lemma free_err_cases fixed s o out ord s' fo :
+  stepf fixed s (Free o out ord) = (s', fo) -> o_err fo = ErrNone \/ o_err fo = ErrDelete.
+Proof.
+  unfold stepf, step_with, free. destruct (free_loop o out (ord ++ keys (refs s)) s) as [[s1 evs] r].
+  intros H; injection H as <- <-. destruct r; cbn; auto.
+Qed.
+
+Lemma fin_mon_run_sound g kinds ins : forall s m,
+  In g kinds ->
+  J g s m -> EIk (hs s) (view s g) -> NDk (view s g) ->
+  v_all (mon_run g (hs s) m (fin_to_steps (fin_steps_of true kinds s ins))) = true.
+Proof.
+  induction ins as [|i ins IH]; intros s m Hg HJ HEI HND; [reflexivity|].
+  assert (Hhs : forall x, hs (fst (stepf true s x)) = hs s).
+  { intros x. destruct (stepf true s x) as [s' o'] eqn:E. now destruct (step_kind _ _ _ _ _ E). }
+  destruct i as [x|o out ord has_fin p|o has_fin p].
+  - cbn [fin_steps_of fin_to_steps mon_run f_obs].
+    destruct (mon_step_sound true g kinds s m x Hg (or_introl eq_refl) HJ HEI HND) as (Hv & HJ' & HEI' & HND').
+    destruct (mon_step g (hs s) m x (obs_of kinds (stepf true s x))) as [m' v] eqn:Em.
+    cbn [fst snd] in *. rewrite v_all_and, Hv. cbn [andb]. rewrite <- (Hhs x). now apply IH.
+  - cbn [fin_steps_of].
+    destruct (free_and_remove_finalizer (stepf true) s o out ord has_fin p) as [[[s' fo] sent] ret] eqn:Eh.
+    cbn [fin_to_steps mon_run f_obs f_sent f_ret].
+    set (x := Free o out ord).
+    destruct (mon_step_sound true g kinds s m x Hg (or_introl eq_refl) HJ HEI HND) as (Hv & HJ' & HEI' & HND').
+    assert (Hq : stepf true s x = (s', fo)).
+    { unfold free_and_remove_finalizer in Eh. fold x in Eh. destruct (stepf true s x) as [s1 o1]. cbn [fst snd] in Eh.
+      destruct (o_err o1); injection Eh as <- <- _ _; reflexivity. }
+    rewrite Hq in *. cbn [fst snd] in *.
+    assert (Hs' : hs s' = hs s) by (specialize (Hhs x); now rewrite Hq in Hhs).
+    (* the error class the monitor is shown *)
+    set (e' := if owner_released sent ret p then ErrNone else ErrDelete).
+    assert (Hcase : e' = o_err fo \/ (e' = ErrDelete /\ o_err fo = ErrNone)).
+    { subst e'. destruct (owner_released sent ret p) eqn:Er.
+      - left. symmetry.
+        assert (Hrel : sent = true \/ ret = RetNil).
+        { unfold owner_released in Er. destruct ret; auto; apply andb_true_iff in Er as [-> _]; auto. }
+        now destruct (helper_frees_before_finalizer_goes _ _ _ _ _ _ _ _ _ _ _ Eh Hrel) as (_ & He & _).
+      - destruct (free_err_cases _ _ _ _ _ _ _ Hq) as [Ee|Ee]; rewrite Ee; auto. }
+    change (Free o out []) with (Free o out []).
+    (* the monitor does not look at the visiting order of a Free *)
+    assert (Hord : forall b, mon_step g (hs s) m (Free o out []) b = mon_step g (hs s) m x b) by reflexivity.
+    rewrite Hord.
+    destruct Hcase as [He|[He Hn]].
+    + assert (Hobs : Obs e' (b_events (obs_of kinds (s', fo))) (b_res (obs_of kinds (s', fo)))
+                         (b_snap (obs_of kinds (s', fo))) = obs_of kinds (s', fo)).
+      { rewrite He. reflexivity. }
+      rewrite Hobs.
+      destruct (mon_step g (hs s) m x (obs_of kinds (s', fo))) as [m' v] eqn:Em.
+      cbn [fst snd] in *. rewrite v_all_and, Hv. cbn [andb]. rewrite <- Hs'. now apply IH.
+    + rewrite He.
+      pose proof (mon_step_free_weaken g (hs s) m o out ord (obs_of kinds (s', fo)) Hv) as (Hv2 & Hm1 & Hm2 & Hm3 & Hm4).
+      fold x in Hv2, Hm1, Hm2, Hm3, Hm4.
+      destruct (mon_step g (hs s) m x (obs_of kinds (s', fo))) as [m1 v1] eqn:Em1.
+      destruct (mon_step g (hs s) m x (Obs ErrDelete (b_events (obs_of kinds (s', fo)))
+                  (b_res (obs_of kinds (s', fo))) (b_snap (obs_of kinds (s', fo))))) as [m2 v2] eqn:Em2.
+      cbn [fst snd] in *. rewrite v_all_and, Hv2. cbn [andb]. rewrite <- Hs'. apply IH; try assumption.
+      destruct HJ' as [J1 J2 J3 J4]. constructor.
+      * now rewrite Hm1.
+      * eapply incl_tran; eassumption.
+      * now rewrite Hm3.
+      * now rewrite Hm4.
+  - cbn [fin_steps_of]. destruct (ensure_finalizer has_fin p) as [sent ret].
+    cbn [fin_to_steps]. now apply IH.
+Qed.
+
+Theorem monitor_fin_sound_fixed handlers kinds ins :
+  monitor (handlers, kinds, fin_to_steps (fin_steps_of true kinds (init handlers) ins)) = true.
+Proof.
+  unfold monitor, monitor_verdict.
+  assert (H : forall ks, incl ks kinds ->
+     v_all (fold_right (fun g v => v_and (mon_run g handlers m_init
+              (fin_to_steps (fin_steps_of true kinds (init handlers) ins))) v) v_true ks) = true).
+  { induction ks as [|g ks IH]; intros Hi; [reflexivity|]. cbn [fold_right].
+    rewrite v_all_and, IH by (intros y Hy; apply Hi; now right). rewrite andb_true_r.
+    apply (fin_mon_run_sound g kinds ins (init handlers) m_init).
+    - apply Hi. now left.
+    - apply J_init.
+    - split; [cbn; tauto|discriminate].
+    - intros l. discriminate. }
+  apply H, incl_refl.
+Qed.
